@@ -145,6 +145,173 @@ fn data_of(n: usize, salt: u8) -> Vec<u8> {
 }
 
 // -------------------------------------------------------------------------------------------
+// Adapters the library MAY provide. The statement covers "every stream adapter the library
+// provides"; which std types implement ReadVolatile / WriteVolatile can change with the library
+// (a blanket impl, a generalised bound). For a list of std stream types the harness detects AT
+// COMPILE TIME (autoref-based method selection) whether the adapter exists and, if it does, drives
+// it side by side with its std::io twin like every other adapter.
+mod optional {
+    use super::*;
+    pub struct W<T>(pub std::cell::RefCell<T>);
+    pub trait ProvidedSink {
+        fn drive_sink(&self, adapter: &str, twin: &mut dyn FnMut(&[u8], bool) -> Res, steps: &[(usize, bool)]) -> Option<bool>;
+    }
+    impl<T: WriteVolatile> ProvidedSink for W<T> {
+        fn drive_sink(&self, adapter: &str, twin: &mut dyn FnMut(&[u8], bool) -> Res, steps: &[(usize, bool)]) -> Option<bool> {
+            let mut s1 = self.0.borrow_mut();
+            for (idx, (blen, all)) in steps.iter().enumerate() {
+                let data = data_of(*blen, 41 + idx as u8);
+                let vb = VBuf::new(*blen, idx + 2 * blen + 1, 0);
+                vb.a.write_at(0, &data);
+                let r1 = if *all { rv(s1.write_all_volatile(&vb.vs()).map(|()| *blen)) } else { rv(s1.write_volatile(&vb.vs())) };
+                let r2 = twin(&data, *all);
+                out::eval(1);
+                if r1 != r2 {
+                    v(adapter, if *all { "write_all/result-differs" } else { "write/result-differs" }, jobj! {"volatile" => J::dbg(&r1), "std" => J::dbg(&r2), "buf_len" => *blen, "call_index" => idx});
+                    return Some(false);
+                }
+                if !matches!(r2, Res::Ok(_)) {
+                    // (the state a FAILED exact call leaves behind is unspecified by std and not judged)
+                    return Some(false);
+                }
+            }
+            Some(true)
+        }
+    }
+    pub trait AbsentSink {
+        fn drive_sink(&self, _adapter: &str, _twin: &mut dyn FnMut(&[u8], bool) -> Res, _steps: &[(usize, bool)]) -> Option<bool> {
+            None
+        }
+    }
+    impl<T> AbsentSink for &W<T> {}
+
+    pub trait ProvidedSource {
+        fn drive_source(&self, adapter: &str, twin: &mut dyn FnMut(&mut [u8], bool) -> Res, steps: &[(usize, bool)]) -> Option<bool>;
+    }
+    impl<T: ReadVolatile> ProvidedSource for W<T> {
+        fn drive_source(&self, adapter: &str, twin: &mut dyn FnMut(&mut [u8], bool) -> Res, steps: &[(usize, bool)]) -> Option<bool> {
+            let mut s1 = self.0.borrow_mut();
+            for (idx, (blen, exact)) in steps.iter().enumerate() {
+                let vb = VBuf::new(*blen, idx + blen, 0xEE);
+                let mut ob = vec![0xEEu8; *blen];
+                let r1 = {
+                    let mut vs = vb.vs();
+                    if *exact { rv(s1.read_exact_volatile(&mut vs).map(|()| *blen)) } else { rv(s1.read_volatile(&mut vs)) }
+                };
+                let r2 = twin(&mut ob, *exact);
+                out::eval(1);
+                let landed_ok = match r2 {
+                    Res::Ok(n) => vb.a.read_all()[..n] == ob[..n],
+                    _ => true,
+                };
+                if r1 != r2 || !landed_ok {
+                    v(adapter, if *exact { "read_exact/result-or-bytes-differ" } else { "read/result-or-bytes-differ" }, jobj! {"volatile" => J::dbg(&r1), "std" => J::dbg(&r2), "buf_len" => *blen, "call_index" => idx, "bytes_equal" => landed_ok});
+                    return Some(false);
+                }
+                if !matches!(r2, Res::Ok(_)) {
+                    return Some(false);
+                }
+            }
+            Some(true)
+        }
+    }
+    pub trait AbsentSource {
+        fn drive_source(&self, _adapter: &str, _twin: &mut dyn FnMut(&mut [u8], bool) -> Res, _steps: &[(usize, bool)]) -> Option<bool> {
+            None
+        }
+    }
+    impl<T> AbsentSource for &W<T> {}
+}
+
+fn optional_adapters() {
+    #[allow(unused_imports)]
+    use optional::{AbsentSink, AbsentSource, ProvidedSink, ProvidedSource, W};
+    let mut provided = 0u64;
+    let mut absent = 0u64;
+    let scripts: [&[(usize, bool)]; 4] = [&[(3, false), (0, false), (8, false), (5, true), (64, false)], &[(9, true), (1, true), (40, true)], &[(0, true), (17, false), (17, false)], &[(4096, false), (3, true)]];
+    // ---- sinks: (name, constructor, how the std twin writes, how to read the final state)
+    macro_rules! sink {
+        ($name:expr, $mk:expr, $state:expr) => {
+            for (si, script) in scripts.iter().enumerate() {
+                let w = W(std::cell::RefCell::new($mk));
+                let mut twin = $mk;
+                let mut f = |d: &[u8], all: bool| -> Res { if all { rs(twin.write_all(d).map(|()| d.len())) } else { rs(twin.write(d)) } };
+                match (&w).drive_sink($name, &mut f, script) {
+                    None => {
+                        absent += 1;
+                        out::key(&format!("optional-sink|{}|not-provided", $name), true);
+                        break;
+                    }
+                    Some(ok) => {
+                        provided += 1;
+                        let (s1, s2) = ($state(&*w.0.borrow()), $state(&twin));
+                        if ok && s1 != s2 {
+                            v($name, "state-after-the-calls-differs-from-std", jobj! {"volatile" => J::dbg(&s1), "std" => J::dbg(&s2), "script" => si});
+                        }
+                        out::key(&format!("optional-sink|{}|provided|script{}", $name, si), true);
+                    }
+                }
+            }
+        };
+    }
+    let vstate = |c: &Cursor<Vec<u8>>| (c.position(), c.get_ref().clone());
+    sink!("Cursor<Vec<u8>>@0", Cursor::new(Vec::<u8>::new()), vstate);
+    sink!("Cursor<Vec<u8>>@inside", { let mut c = Cursor::new(vec![7u8; 20]); c.set_position(5); c }, vstate);
+    sink!("Cursor<Vec<u8>>@end", { let mut c = Cursor::new(vec![7u8; 20]); c.set_position(20); c }, vstate);
+    sink!("Cursor<Vec<u8>>@past-end", { let mut c = Cursor::new(vec![7u8; 20]); c.set_position(23); c }, vstate);
+    let bstate = |c: &Cursor<Box<[u8]>>| (c.position(), c.get_ref().to_vec());
+    sink!("Cursor<Box<[u8]>>@3", { let mut c = Cursor::new(vec![7u8; 20].into_boxed_slice()); c.set_position(3); c }, bstate);
+    sink!("Cursor<Box<[u8]>>@end", { let mut c = Cursor::new(vec![7u8; 20].into_boxed_slice()); c.set_position(20); c }, bstate);
+    let astate = |c: &Cursor<[u8; 24]>| (c.position(), c.get_ref().to_vec());
+    sink!("Cursor<[u8;24]>@20", { let mut c = Cursor::new([7u8; 24]); c.set_position(20); c }, astate);
+    let dstate = |d: &std::collections::VecDeque<u8>| d.iter().copied().collect::<Vec<u8>>();
+    sink!("VecDeque<u8>", std::collections::VecDeque::<u8>::from(vec![1u8, 2, 3]), dstate);
+    sink!("io::Sink", std::io::sink(), |_s: &std::io::Sink| 0u8);
+    sink!("io::Empty", std::io::empty(), |_s: &std::io::Empty| 0u8);
+    sink!("Box<Vec<u8>>", Box::new(vec![9u8; 3]), |b: &Box<Vec<u8>>| (**b).clone());
+    sink!("BufWriter<Vec<u8>>", std::io::BufWriter::with_capacity(16, vec![1u8]), |b: &std::io::BufWriter<Vec<u8>>| (b.buffer().to_vec(), b.get_ref().clone()));
+    sink!("LineWriter<Vec<u8>>", std::io::LineWriter::new(vec![1u8]), |b: &std::io::LineWriter<Vec<u8>>| b.get_ref().clone());
+    // ---- sources
+    macro_rules! source {
+        ($name:expr, $mk:expr, $state:expr) => {
+            for (si, script) in scripts.iter().enumerate() {
+                let w = W(std::cell::RefCell::new($mk));
+                let mut twin = $mk;
+                let mut f = |b: &mut [u8], exact: bool| -> Res { if exact { rs(twin.read_exact(b).map(|()| b.len())) } else { rs(twin.read(b)) } };
+                match (&w).drive_source($name, &mut f, script) {
+                    None => {
+                        absent += 1;
+                        out::key(&format!("optional-source|{}|not-provided", $name), true);
+                        break;
+                    }
+                    Some(ok) => {
+                        provided += 1;
+                        let (s1, s2) = ($state(&*w.0.borrow()), $state(&twin));
+                        if ok && s1 != s2 {
+                            v($name, "state-after-the-calls-differs-from-std", jobj! {"volatile" => J::dbg(&s1), "std" => J::dbg(&s2), "script" => si});
+                        }
+                        out::key(&format!("optional-source|{}|provided|script{}", $name, si), true);
+                    }
+                }
+            }
+        };
+    }
+    let src: Vec<u8> = data_of(100, 77);
+    source!("Cursor<Vec<u8>>", { let mut c = Cursor::new(src.clone()); c.set_position(2); c }, |c: &Cursor<Vec<u8>>| c.position());
+    source!("Cursor<Box<[u8]>>", Cursor::new(src.clone().into_boxed_slice()), |c: &Cursor<Box<[u8]>>| c.position());
+    source!("Cursor<[u8;24]>", { let mut c = Cursor::new([5u8; 24]); c.set_position(21); c }, |c: &Cursor<[u8; 24]>| c.position());
+    source!("VecDeque<u8>", std::collections::VecDeque::<u8>::from(src.clone()), |d: &std::collections::VecDeque<u8>| d.len());
+    source!("io::Empty", std::io::empty(), |_s: &std::io::Empty| 0u8);
+    source!("io::Repeat", std::io::repeat(0x5a), |_s: &std::io::Repeat| 0u8);
+    source!("Take<&[u8]>", Read::take(&src[..], 13), |t: &std::io::Take<&[u8]>| t.limit());
+    source!("Chain<&[u8],&[u8]>", Read::chain(&src[..5], &src[50..57]), |_c: &std::io::Chain<&[u8], &[u8]>| 0u8);
+    source!("BufReader<&[u8]>", std::io::BufReader::with_capacity(8, &src[..30]), |b: &std::io::BufReader<&[u8]>| b.buffer().len());
+    source!("Box<&[u8]>", Box::new(&src[..30]), |b: &Box<&[u8]>| b.len());
+    out::count("optional_adapters_provided_and_driven", provided as i128);
+    out::count("optional_adapters_not_provided", absent as i128);
+}
+
+// -------------------------------------------------------------------------------------------
 // complete grids for the in-memory adapters
 
 fn grid_slice_reader(max: usize) {
@@ -973,6 +1140,9 @@ pub fn run(args: &Args) {
             if let Err(p) = guarded(vec_capacity_states) {
                 out::viol(&format!("C13/panic/vec-capacity-states/{}", panic_sig(&p)), J::s(p));
             }
+        }
+        if let Err(p) = guarded(optional_adapters) {
+            out::viol(&format!("C13/panic/optional-adapters/{}", panic_sig(&p)), J::s(p));
         }
         out::count("grid_max_len", max as i128);
         out::sample(jobj! {"grid" => "stream length 0..max x position {0,mid,len-1,len,len+1,u64::MAX-3,u64::MAX} x buffer length 0..max x {up-to, exact} x second call", "adapters" => "&[u8], Cursor<&[u8]>, Cursor<Vec<u8>>, &mut [u8], Vec<u8>, Cursor<&mut [u8]>", "max" => max});
